@@ -3465,6 +3465,32 @@ impl<'a, R: FileManager> FrontendCtx<'a, R> {
             f: file_name.clone(),
             s: t.span,
         };
+        // a conditional type whose checked type is a naked type parameter distributes over a union
+        // argument: `IsStr<string | number>` is `IsStr<string> | IsStr<number>`
+        if let TsType::TsTypeRef(TsTypeRef {
+            type_name: TsEntityName::Ident(ident),
+            type_params: None,
+            ..
+        }) = t.check_type.as_ref()
+            && let Some((name, arg)) = self
+                .type_application_stack
+                .iter()
+                .rev()
+                .find(|(n, _)| ident.sym == *n)
+                .cloned()
+            && let Ok(members) = self.extract_union(arg)
+            && members.len() > 1
+        {
+            let mut results = vec![];
+            for member in members {
+                self.type_application_stack.push((name.clone(), member));
+                let result = self.convert_conditional_type(t, file_name.clone());
+                self.type_application_stack.pop();
+                results.push(result?);
+            }
+            return Ok(Runtype::any_of(results));
+        }
+
         let check_type_schema = self.extract_type(&t.check_type, file_name.clone())?;
         let extends_type_schema = self.extract_type(&t.extends_type, file_name.clone())?;
 
